@@ -5,11 +5,10 @@ from .lib import *
 def status_guard_edges(P, fn, if_index_param=None, status="Announced"):
     """edges taken only when get_status(S, if_index) == status; returns [(edge, S_expr)]"""
     out = []
-    for b in fn.live_blocks():
-        if fn.term(b)["k"] != "switch":
-            continue
-        for (tgt, atom, outcome) in switch_edges(P, fn, b):
-            if atom[0] != "call":
+    seen = set()
+    if True:
+        for ((b, tgt), atom, outcome) in guard_atoms(P, fn):
+            if atom[0] != "call" or (b, tgt) in seen:
                 continue
             n = strip_generics(atom[1])
             if not (n.endswith("ServiceStatus as std::cmp::PartialEq>::ne") or n.endswith("ServiceStatus as std::cmp::PartialEq>::eq")):
@@ -32,6 +31,7 @@ def status_guard_edges(P, fn, if_index_param=None, status="Announced"):
                 if not all(x == ("param", if_index_param) or (x[0] == "field" and False) for x in idx_alts):
                     # allow *if_index deref of a loop variable bound to the same key: handled by caller
                     pass
+            seen.add((b, tgt))
             out.append(((b, tgt), g[2][0], g[2][1]))
     return out
 
